@@ -984,6 +984,34 @@ fn run_case(r: &mut Runner, case: &str) {
             },
             None => emit(case, "bad-case", "-"),
         }
+    } else if let Some(rest) = case.strip_prefix("G ") {
+        // `G <function definition> <script>`: listing variants of `typeset -f` (all functions, a read-only
+        // function followed by its attribute command, an unknown name); the first command of the output
+        // must read back as the function
+        match rest.rsplit_once(' ').and_then(|(t, h)| dec_str(h).map(|s| (t.to_string(), s))) {
+            Some((tree, script)) => {
+                let mut oracle = "-".to_string();
+                let obs = guarded(|| {
+                    let o = yverif::shell::run_script(&script);
+                    oracle = match List::from_str(&o.stdout_str()) {
+                        Ok(l) if !l.0.is_empty() && l.0[0].and_or.first.commands.len() == 1 => {
+                            let (sx, _) = part(|s| s.command(&l.0[0].and_or.first.commands[0]));
+                            if sx == tree { "ok".to_string() } else { "FAIL:typeset-listing-reads-back-as-a-different-function".to_string() }
+                        }
+                        // an unknown name makes `typeset` report an error and print nothing
+                        Ok(_) if script.contains("no_such_function") => "-".to_string(),
+                        Ok(_) => "FAIL:typeset-listing-is-empty".to_string(),
+                        Err(e) => format!("FAIL:typeset-listing-rejected({})", variant(&e)),
+                    };
+                    "total".to_string()
+                });
+                if obs.starts_with("PANIC") {
+                    oracle = "FAIL:panic".to_string();
+                }
+                emit(case, &obs, &oracle);
+            }
+            None => emit(case, "bad-case", "-"),
+        }
     } else if let Some(rest) = case.strip_prefix("F ").or_else(|| case.strip_prefix("J ")) {
         match rest.rsplit_once(' ').and_then(|(t, h)| dec_str(h).map(|s| (t.to_string(), s))) {
             Some((tree, script)) => {
@@ -1660,13 +1688,16 @@ impl G {
         if self.ch(1, 4) {
             // here-document
             let rt = self.ch(1, 2);
-            let (dsx, dsrc, dplain) = match self.rng.below(6) {
+            let (dsx, dsrc, dplain) = match self.rng.below(9) {
                 0 => ("(w (L 454f46))".to_string(), "EOF".to_string(), "EOF".to_string()),
                 1 => ("(w (sq 454f46))".to_string(), "'EOF'".to_string(), "EOF".to_string()),
                 2 => ("(w (L 45) (dq (L 4f)) (L 46))".to_string(), "E\"O\"F".to_string(), "EOF".to_string()),
                 3 => ("(w (b 105) (L 31))".to_string(), "\\i1".to_string(), "i1".to_string()),
                 4 => ("(w (L 2d454e44))".to_string(), "-END".to_string(), "-END".to_string()),
-                _ => ("(w (L 2d))".to_string(), "-".to_string(), "-".to_string()),
+                5 => ("(w (L 2d))".to_string(), "-".to_string(), "-".to_string()),
+                6 => ("(w (dsq (L 45) b (L 46)))".to_string(), "$'E\\bF'".to_string(), "E\u{8}F".to_string()),
+                7 => ("(w (dsq (L 45) v (L 46) (x 33) (o 52) (u 233) (c 1)))".to_string(), "$'E\\vF\\x21\\064\\u00e9\\cA'".to_string(), "E\u{b}F!4é\u{1}".to_string()),
+                _ => ("(w (dsq a e f r t qm dq sq bs))".to_string(), "$'\\a\\e\\f\\r\\t\\?\\\"\\'\\\\'".to_string(), "\u{7}\u{1b}\u{c}\r\t?\"'\\".to_string()),
             };
             let op = if rt { "<<-" } else { "<<" };
             let gap = if dsrc.starts_with('-') { self.sp() } else { self.osp() };
@@ -2468,6 +2499,20 @@ fn main() {
             let case = format!("{} {} {}", if is_fn { "F" } else { "J" }, tree, enc_str(&script));
             let (obs, oracle) = run_shell_case(is_fn, &tree, &script);
             emit(&case, &obs, &oracle);
+            if is_fn && k % 4 == 0 {
+                // the same definition through the other listing paths of `typeset`
+                if let Some((def, name)) = script.rsplit_once("\ntypeset -fp ").map(|(d, n)| (d.to_string(), n.trim().to_string())) {
+                    for tail in [
+                        "typeset -fp\n".to_string(),
+                        format!("typeset -fr {name}\ntypeset -fp {name}\n"),
+                        format!("typeset -fp {name} no_such_function\n"),
+                        format!("typeset -fp +r {name}\ntypeset -fp -r {name}\n"),
+                    ] {
+                        let g = format!("G {} {}", tree, enc_str(&format!("{def}\n{tail}")));
+                        run_case(&mut r, &g);
+                    }
+                }
+            }
         }
     }
     if o.extra.iter().any(|a| a == "--errors") {
